@@ -8,7 +8,7 @@ from .common import parse_reply, parse_list, hexs
 from .gen_tables import gen_column
 
 KINDS = ["bool", "int8", "int16", "int32", "int64", "uint8", "uint16", "uint32", "uint64", "float32", "float64", "float_nan",
-         "str", "bytes", "dt_ns", "dt_us", "dt_ms", "dt_s", "dt_tz", "td", "cat_str", "cat_int", "Int64", "Int32", "UInt16", "boolean", "td_ms", "td_s"]
+         "str", "bytes", "dt_ns", "dt_us", "dt_ms", "dt_s", "dt_tz", "td", "cat_str", "cat_int", "Int64", "Int32", "UInt16", "boolean", "td_ms", "td_s", "dt_tzoff"]
 ROWS = [0, 1, 7, 8, 9, 63, 64, 65]
 ROWS_BIG = [8191, 8192, 8193]
 CODECS = [None, None, "SNAPPY", "GZIP", "ZSTD", "LZ4", "BROTLI"]
@@ -94,7 +94,7 @@ def gen_case(rng, idx, quick=True):
     if forced_hn is not None:
         hn = forced_hn
     # has_nulls=False is only legal when no column that cannot express a missing value has one
-    nullable_free = all(pats[k] == "none" or k in ("float32", "float64", "float_nan", "dt_ns", "dt_us", "dt_ms", "dt_s", "dt_tz", "td", "td_ms", "td_s") for k in kinds)
+    nullable_free = all(pats[k] == "none" or k in ("float32", "float64", "float_nan", "dt_ns", "dt_us", "dt_ms", "dt_s", "dt_tz", "td", "td_ms", "td_s", "dt_tzoff") for k in kinds)
     if hn == "list":
         opts["has_nulls"] = [c for c in df.columns if c.split("_", 1)[-1] in ("str", "bytes", "Int64", "Int32", "UInt16", "boolean", "cat_str", "cat_int", "cat_wide")
                              or rng.random() < 0.5]
@@ -362,7 +362,7 @@ def writer_model_stream(ctx, report, work, data_blobs, decoded):
                                                   f"write_column records {m_enc} / {m_st}", "sig": "wpage:encoding_stats"})
         if dd.get("back") != "same":
             report.corr_break("wpage.chunk", {**rec, "what": "Spec.File does not decode the MODEL's own pages back to the cells (" + str(dd.get("back"))[:120]
-                                              + "): the input is outside the theorem's hypotheses", "sig": "wpage:back"})
+                                              + "): the input is outside the theorem's hypotheses", "request": req[:4000], "sig": "wpage:back"})
         if got != exp:
             what = f"{len(exp)} pages written, the model lays down {len(got)}"
             for i, (g, e) in enumerate(zip(got, exp)):
@@ -371,7 +371,7 @@ def writer_model_stream(ctx, report, work, data_blobs, decoded):
                     k = next(j for j in range(7) if g[j] != e[j])
                     what = (f"page {i}: {names[k]} written {str(e[k])[:80]} but the model of write_column lays down {str(g[k])[:80]}")
                     break
-            report.corr_break("wpage.chunk", {**rec, "what": what, "request": req[:600], "sig": "wpage:" + what.split(":")[1][:25] if ":" in what else "wpage:count"})
+            report.corr_break("wpage.chunk", {**rec, "what": what, "request": req[:4000], "got": str(got)[:200000], "exp": str(exp)[:200000], "sig": "wpage:" + what.split(":")[1][:25] if ":" in what else "wpage:count"})
 
 
 def _phys_list(arr, ptype):
